@@ -11,6 +11,7 @@ import (
 	"path/filepath"
 	"sort"
 	"strings"
+	"time"
 
 	"deps.dev/util/resolve"
 	"deps.dev/util/resolve/dep"
@@ -66,8 +67,9 @@ type Prop struct {
 
 // Profile is a Maven profile (not activated unless Active).
 type Profile struct {
-	ID     string `json:"id"`
+	ID     string `json:"id"` // "" = no <id> element (legal; Maven defaults it)
 	Deps   []MDep `json:"deps,omitempty"`
+	Mgmt   []MDep `json:"mgmt,omitempty"`   // the profile's own <dependencyManagement>
 	Active bool   `json:"active,omitempty"` // <activeByDefault>: merged into the requirements
 }
 
@@ -115,6 +117,9 @@ type VulnSpec struct {
 	Affected []Aff    `json:"affected"`
 	Severity string   `json:"severity,omitempty"` // "", "high", "low"
 	Aliases  []string `json:"aliases,omitempty"`  // OSV aliases (ids of other records)
+	// Withdrawn: the record carries a `withdrawn` timestamp (the database retracted it; the
+	// matcher still returns it, as osv.dev does).
+	Withdrawn bool `json:"withdrawn,omitempty"`
 }
 
 // PkgLevel is a per-package upgrade level.
@@ -309,6 +314,9 @@ func (w *World) osv() []*osvschema.Vulnerability {
 			}
 			o.Affected = append(o.Affected, oa)
 		}
+		if v.Withdrawn {
+			o.Withdrawn = time.Date(2024, 1, 2, 3, 4, 5, 0, time.UTC)
+		}
 		switch v.Severity {
 		case "high":
 			o.Severity = []osvschema.Severity{{Type: osvschema.SeverityCVSSV3, Score: cvssHigh}}
@@ -432,11 +440,21 @@ func renderPom(p *Pom, isParent bool, parentDir string) []byte {
 	if len(p.Profiles) > 0 {
 		b.WriteString("  <profiles>\n")
 		for _, pf := range p.Profiles {
-			b.WriteString("    <profile>\n      <id>" + pf.ID + "</id>\n")
+			b.WriteString("    <profile>\n")
+			if pf.ID != "" {
+				b.WriteString("      <id>" + pf.ID + "</id>\n")
+			}
 			if pf.Active {
 				b.WriteString("      <activation>\n        <activeByDefault>true</activeByDefault>\n      </activation>\n")
 			}
-			renderDeps(&b, "      ", pf.Deps)
+			if len(pf.Mgmt) > 0 {
+				b.WriteString("      <dependencyManagement>\n")
+				renderDeps(&b, "        ", pf.Mgmt)
+				b.WriteString("      </dependencyManagement>\n")
+			}
+			if len(pf.Deps) > 0 {
+				renderDeps(&b, "      ", pf.Deps)
+			}
 			b.WriteString("    </profile>\n")
 		}
 		b.WriteString("  </profiles>\n")
@@ -514,6 +532,12 @@ func (w *World) describe() string {
 					}
 					parts = append(parts, "profile "+pf.ID+act+" "+d.Name()+"@"+d.V)
 				}
+				for _, d := range pf.Mgmt {
+					parts = append(parts, "profile "+pf.ID+" mgmt "+d.Name()+"@"+d.V)
+				}
+				if len(pf.Deps)+len(pf.Mgmt) == 0 {
+					parts = append(parts, "profile "+pf.ID+" (empty)")
+				}
 			}
 			return strings.Join(parts, "; ")
 		}
@@ -532,6 +556,9 @@ func (w *World) describe() string {
 		al := ""
 		if len(v.Aliases) > 0 {
 			al = "(alias " + strings.Join(v.Aliases, ",") + ")"
+		}
+		if v.Withdrawn {
+			al += "(withdrawn)"
 		}
 		vs = append(vs, v.ID+al+sevStr(v.Severity)+":"+strings.Join(as, "+"))
 	}
